@@ -47,6 +47,7 @@ type Prog struct {
 	Clocks   []int `json:"clocks,omitempty"` // initial clock time per replica (LogOptions.Clock)
 	Conc     []int `json:"conc,omitempty"`   // LogOptions.Concurrency per replica (0 = default)
 	Preload  []int `json:"preload,omitempty"` // per replica: starts with the first n entries of one long shared history (large logs)
+	ClockIDs []int `json:"clockIds,omitempty"` // id carried by the LogOptions.Clock of a replica with an initial clock: 0 its own key, 1 another writer's key, 2 empty
 }
 
 // toggleAC is a permissive access controller that can be told to deny everything (for "appenddenied").
@@ -146,6 +147,9 @@ func Gen(t *rapid.T, cfg GenConfig) Prog {
 		p.Clocks = append(p.Clocks, rapid.SampledFrom([]int{0, 0, 0, 0, 0, 3, 1000, 1 << 40, 1<<53 - 1, 1 << 53, 1 << 60, 1_700_000_000_000_000_000}).Draw(t, "clock0"))
 	}
 	for i := 0; i < n; i++ {
+		p.ClockIDs = append(p.ClockIDs, rapid.SampledFrom([]int{0, 0, 1, 2}).Draw(t, "clockId"))
+	}
+	for i := 0; i < n; i++ {
 		p.Conc = append(p.Conc, rapid.SampledFrom([]int{0, 0, 1, 2, 3, 5}).Draw(t, "conc"))
 	}
 	if cfg.LargeOneIn > 0 && rapid.IntRange(0, cfg.LargeOneIn-1).Draw(t, "large") == cfg.LargeOneIn*2/3 { // (rapid favours small values: a value from the middle has about the nominal frequency)
@@ -231,7 +235,17 @@ func New(tb ev.TB, p *Prog) *World {
 			lo.Concurrency = uint(p.Conc[i])
 		}
 		if i < len(p.Clocks) && p.Clocks[i] > 0 {
-			lo.Clock = entry.NewLamportClock(world.Identity(wr).PublicKey, p.Clocks[i])
+			// the option carries a clock *time*; which id that clock object has is the caller's business
+			id := world.Identity(wr).PublicKey
+			if i < len(p.ClockIDs) {
+				switch p.ClockIDs[i] {
+				case 1:
+					id = world.Identity((wr + 1) % 4).PublicKey
+				case 2:
+					id = nil
+				}
+			}
+			lo.Clock = entry.NewLamportClock(id, p.Clocks[i])
 		}
 		model := world.Set{}
 		if i < len(p.Preload) && p.Preload[i] > 0 {
